@@ -26,8 +26,8 @@ func (r *Rng) Intn(n int) int {
 	}
 	return int(r.Next() % uint64(n))
 }
-func (r *Rng) Chance(num, den int) bool { return r.Intn(den) < num }
-func (r *Rng) Pick(xs ...int) int      { return xs[r.Intn(len(xs))] }
+func (r *Rng) Chance(num, den int) bool  { return r.Intn(den) < num }
+func (r *Rng) Pick(xs ...int) int        { return xs[r.Intn(len(xs))] }
 func (r *Rng) PickS(xs ...string) string { return xs[r.Intn(len(xs))] }
 
 // GenBytes expands "@len:seed" deterministically (same LCG in ocaml/driver.ml).
